@@ -1007,6 +1007,8 @@ MANIFEST = dict(
 	technique='exhaustive exploration of all task-completion orders of a pool model, every trace replayed on the real Thread/ProcessPoolExecutor through gated workers',
 	text='All completion orders allowed by the pool model (n=4 files, thorough 5; w in {1,2,n} workers; p pre-completed futures; threads, processes, caller-supplied '
 	     'executor; an unreadable file at every position) are forced on the real calc_file_signatures by a gate controller that validates the model against '
-	     'the implementation at every step; the result must be the per-file signatures in file order, or the call must raise when a file is unreadable.',
-	note='FIFO dispatch validated per step; fork start method; worker bodies atomic.',
+	     'the implementation at every step; the result must be the per-file signatures in file order, or the call must raise when a file is unreadable.  Further families: file lists with '
+	     'repeated entries, call histories (valid / failing calls, changes of working directory with relative names, reused executors), two overlapping calls '
+	     'with different parameters (deterministic gate), worker bodies interleaved at Python-line granularity under pool semantics.',
+	note='FIFO dispatch validated per step; fork start method; pools the library keeps alive are ended by the harness after each run (not judged).',
 )
